@@ -38,11 +38,45 @@ extern uint64_t vf_inlog[VF_NLOG];
 extern unsigned vf_inlog_n;
 
 /* --- per-thread state ---------------------------------------------------------------------- */
+#ifndef VF_SEQ
 extern __thread int vf_unw;      /* 0 normal, 1 thread declared stuck forever, 2 exception in flight */
 extern __thread void *vf_exc_obj;
 extern __thread int vf_exc_sel;
 extern __thread int vf_tid;      /* model thread index, main = 0 */
 extern __thread int vf_spur;     /* spurious futex returns used */
+#else
+/* Sequentialised encoding (engine 'cbmc-seq'): all model threads run inside one CBMC thread under a
+ * symbolic scheduler (vf_entry); a thread root is a resumable function (see vf/ir2c.py, seq mode).
+ * Per-thread runtime state lives in arrays indexed by the running thread. */
+#ifndef VF_STEPS
+#define VF_STEPS 8       /* execution segments (context switches + 1) explored */
+#endif
+#ifndef VF_PREEMPTS
+#define VF_PREEMPTS VF_STEPS /* involuntary switches (at atomic operations) per execution */
+#endif
+extern int vf_tid;
+extern int vf_unw_a[VF_NTHREADS];
+extern void *vf_exc_obj_a[VF_NTHREADS];
+extern int vf_exc_sel_a[VF_NTHREADS];
+extern int vf_spur_a[VF_NTHREADS];
+extern void *vf_caught_a[VF_NTHREADS];
+#define vf_unw vf_unw_a[vf_tid]
+#define vf_exc_obj vf_exc_obj_a[vf_tid]
+#define vf_exc_sel vf_exc_sel_a[vf_tid]
+#define vf_spur vf_spur_a[vf_tid]
+#define vf_caught vf_caught_a[vf_tid]
+extern int vf_pc[VF_NTHREADS];     /* resume point of each thread root; -1 = finished */
+extern _Bool vf_blk;               /* set by a blocking primitive that could not complete */
+extern _Bool vf_paused;            /* the running thread gave up the processor at a spin hint */
+extern int vf_in_ghost;            /* inside a harness ghost-state section: no preemption */
+extern int vf_vis_t;               /* trace marker: thread performing a visible operation */
+_Bool vf_preempt(int k);
+_Bool vf_slot_begin(int k);
+#define VF_SEQUENTIAL 1
+#define VF_ATOMIC_BEGIN(site) (vf_vis_t = vf_tid)
+#define VF_ATOMIC_END(site) ((void)0)
+#define VF_NOBLOCK() __CPROVER_assert(!vf_blk, "rt: blocking call inside a function that was not inlined into its thread root")
+#endif
 
 #define VF_RLX 0
 #define VF_ACQ 1
@@ -50,12 +84,14 @@ extern __thread int vf_spur;     /* spurious futex returns used */
 #define VF_AR 3
 #define VF_SC 4
 
+#ifndef VF_SEQ
 #ifndef VF_SEQUENTIAL
 #define VF_ATOMIC_BEGIN(site) __CPROVER_atomic_begin()
 #define VF_ATOMIC_END(site) __CPROVER_atomic_end()
 #else
 #define VF_ATOMIC_BEGIN(site) ((void)0)
 #define VF_ATOMIC_END(site) ((void)0)
+#endif
 #endif
 #ifndef VF_ATOMIC_LOAD
 #define VF_ATOMIC_LOAD(site, p, o) ((void)0)
@@ -122,6 +158,7 @@ void vf_exit(int);
 void vf_assert_fail(void *, void *, unsigned, void *);
 void vf_call_terminate(void *);
 int vf_sched_yield(void);
+int vf_nanosleep(void *req, void *rem);
 int vf_guard_acquire(void *g);
 void vf_guard_release(void *g);
 int vf_cxa_atexit(void *f, void *a, void *d);
@@ -131,6 +168,9 @@ int vf_strcmp(void *a, void *b);
 int vf_memcmp(void *a, void *b, uint64_t n);
 void *vf_strchr(void *s, int c);
 void *vf_memchr(void *s, int c, uint64_t n);
+int64_t vf_strtol(void *s, void **end, int base);
+int vf_sched_cpucount(uint64_t setsize, void *set);
+void *vf_string_M_create(void *self, uint64_t *cap, uint64_t old_cap);
 int *vf_errno_location(void);
 int64_t vf_syscall(uint64_t nr, uint64_t a1, uint64_t a2, uint64_t a3, uint64_t a4, uint64_t a5, uint64_t a6);
 void vf_memcpy(void *d, const void *s, uint64_t n);
